@@ -1005,7 +1005,7 @@ def sched_job(job, res, C, sets, viol, nontrivial):
 def plan(tier, seed):
     jobs = []
     if tier == "quick":
-        ng, per, noi, oper, nc, cper, ns, sper = 16, 45, 6, 120, 8, 40, 8, 30
+        ng, per, noi, oper, nc, cper, ns, sper = 16, 36, 6, 120, 8, 40, 8, 30
     else:
         ng, per, noi, oper, nc, cper, ns, sper = 48, 300, 16, 1500, 16, 100, 16, 80
     for i in range(ng):
